@@ -136,6 +136,12 @@ def parse_text_results(out, res):
         if mm: res["vccs"] = int(mm.group(1)); res["vccs_remaining"] = int(mm.group(2))
         mm = re.search(r"Runtime Solver: ([0-9.e+-]+)s", line)
         if mm: res["solver_s"] = res.get("solver_s", 0.0) + float(mm.group(1))
+        mm = re.search(r"Runtime Symex: ([0-9.e+-]+)s", line)
+        if mm: res["symex_s"] = round(float(mm.group(1)), 1)
+        mm = re.search(r"Runtime Convert SSA: ([0-9.e+-]+)s", line)
+        if mm: res["convert_s"] = round(float(mm.group(1)), 1)
+        mm = re.search(r"^(\d+) variables, (\d+) clauses", line)
+        if mm: res["sat_vars"] = int(mm.group(1)); res["sat_clauses"] = int(mm.group(2))
         if "rror" in line or "Out of memory" in line or "out of memory" in line:
             errors.append(line.strip()[:200])
     if not verdict or not props:
@@ -261,6 +267,7 @@ class Runner(object):
             self.gate.release(mem)
         self.log("  [%s] %-60s %s %s" % (self.prop, name, res["status"].upper(),
                                         ("%.1fs %dMB" % (res.get("cbmc_wall_s", 0), res.get("cbmc_rss_mb", 0)))
+                                        + (" (symex %.0fs conv %.0fs sat %.0fs)" % (res.get("symex_s", 0), res.get("convert_s", 0), res.get("solver_s", 0)) if res.get("symex_s") else "")
                                         + ((" :: " + res["detail"][:160]) if res["status"] != "discharged" else "")))
         return res
 
@@ -372,7 +379,21 @@ class Runner(object):
             return
         confirmed = None; tried = []
         for p in real:
-            tcmd = list(cmd) + ["--trace", "--property", p["property"]]
+            if "unwinding assertion" in p.get("description", ""):
+                # cbmc 6.11 rejects --property <func>.unwind.N.  Only unwinding assertions failed (they sort last): rebuild without the
+                # reachability witnesses (which fail by construction) and take the trace of the first failing property.
+                if [q for q in fails if "unwinding assertion" not in q.get("description", "")]:
+                    continue
+                gb2 = os.path.join(d, "h_nowit.gb")
+                inc = self.patched_include_dir(ob, d)
+                rc2, o2, e2, w2, r2, to2 = run_cmd(["goto-cc", "-DVERIF_CBMC", "-DVERIF_NO_WITNESS", "-o", gb2] + inc + CFLAGS + self.defs(ob, gp) + self.src_list(ob, d), 300, cwd=d)
+                if rc2 != 0:
+                    tried.append({"property": p["property"], "replay": "rebuild without witnesses failed"}); continue
+                for fn in ob.remove_bodies:
+                    run_cmd(["goto-instrument", "--remove-function-body", fn, gb2, gb2], 120, cwd=d)
+                tcmd = [gb2 if c == cmd[1] else c for c in cmd] + ["--trace", "--stop-on-fail"]
+            else:
+                tcmd = list(cmd) + ["--trace", "--property", p["property"]]
             sh = " ".join("'%s'" % c.replace("'", "'\\''") for c in tcmd) + " 2>/dev/null | grep -a -E '^ *VINS(=\\{ \\.b|\\.b)=\\{ '"
             rc, out, err, wall, rss, to = run_cmd(["bash", "-c", sh], ob.timeout, cwd=d, mem_gb=ob.mem_gb * 1.5 + 2, env=env)
             with self.lock:
@@ -399,7 +420,7 @@ class Runner(object):
             return
         p, vin, rrc, rout = confirmed
         sl = p.get("sourceLocation", {})
-        rdir = os.path.join(VERIF, "replays", self.prop)
+        rdir = os.path.join(os.environ.get("VERIF_REPLAY_DIR") or os.path.join(VERIF, "replays"), self.prop)   # redirected when evaluating seeded changes
         os.makedirs(rdir, exist_ok=True)
         h = hashlib.sha1(vin + name.encode()).hexdigest()[:10]
         rpath = os.path.join(rdir, "%s-%s.json" % (re.sub(r"[^A-Za-z0-9_.-]", "_", name), h))
@@ -578,7 +599,7 @@ class Runner(object):
         samples = []
         for r in results[:3] + ref[:3] + kn[:3] + inc[:3]:
             samples.append({k: r.get(k) for k in ("obligation", "function", "grid_point", "status", "cbmc_cmd",
-                                                   "properties_total", "properties_success", "program_steps", "vccs",
+                                                   "properties_total", "properties_success", "program_steps", "vccs", "symex_s", "convert_s", "solver_s", "sat_vars", "sat_clauses",
                                                    "cbmc_wall_s", "witness", "detail", "violation", "replay") if r.get(k) is not None})
         ev = {
             "property_id": self.prop, "tier": self.tier, "seed": self.seed, "level": "model_checking",
